@@ -558,8 +558,38 @@ func registerBig(e *Engine) {
 				return tuple{z, true}
 			}
 		}
+		if ss, ok := args[1].(*SymStr); ok && len(ss.parts) == 1 && ss.parts[0].kind == "s" && ss.parts[0].t.op == "app" && ss.parts[0].t.name == "ratfix" {
+			// the fixed-point rendering FloatString produced: value q / 10^prec
+			q, prec := ss.parts[0].t.args[0], ss.parts[0].t.args[1]
+			d := new(big.Int).Exp(big.NewInt(10), prec.ival, nil)
+			*z = ratVal{num: mkBig(q), den: bigConc(d), unnorm: true}
+			return tuple{z, true}
+		}
 		abort("unmodelled", "big.Rat.SetString of symbolic string")
 		return nil
+	})
+	// FloatString(prec): x rounded half away from zero to prec decimal digits.
+	// For a symbolic fraction the text is opaque; its value round(x*10^prec)/10^prec
+	// is what a later SetString recovers.
+	e.reg("(*math/big.Rat).FloatString", func(fr *frame, args []value) value {
+		r := (*args[0].(*value)).(ratVal)
+		prec, ok := args[1].(int64)
+		if !ok || prec < 0 {
+			abort("unmodelled", "big.Rat.FloatString with symbolic precision")
+		}
+		if r.num.isConc() && r.den.isConc() {
+			return new(big.Rat).SetFrac(r.num.conc(), r.den.conc()).FloatString(int(prec))
+		}
+		scale := IntConst(new(big.Int).Exp(big.NewInt(10), big.NewInt(prec), nil))
+		n, d := r.num.term(), r.den.term() // d > 0
+		neg := Lt(n, IntConst64(0))
+		an := Ite(neg, Neg(n), n)
+		scaled := Mul(an, scale)
+		q := EDiv(scaled, d)
+		rem := EMod(scaled, d)
+		q = Ite(Ge(Mul(IntConst64(2), rem), d), Add(q, IntConst64(1)), q)
+		q = Ite(neg, Neg(q), q)
+		return &SymStr{parts: []strPart{{kind: "s", t: App("ratfix", SStr, q, IntConst64(prec))}}}
 	})
 	e.reg("(*math/big.Rat).Num", func(fr *frame, args []value) value {
 		r := (*args[0].(*value)).(ratVal)
